@@ -15,7 +15,7 @@ PID = "C21"
 LEVEL = "exploration"
 EXHAUSTIVE = "the full cross product types x origins x operations x operands x routes is enumerated in every tier"
 RULE = (
-    "exhaustive product of 8 undefined types (4 classes, each plain and as make_logging_undefined(base=...)) x 5 origins "
+    "exhaustive product of 8 undefined types (4 classes, each plain and as make_logging_undefined(base=...)) x 6 origins "
     "(missing name / attribute / str item / int item / explicit hint) x operation table (both operand orders for binary "
     "operators) x 8 other operands x routes (python protocol call; rendered template where the operation has template "
     "syntax). Non-trivial = anything except str/bool of the plain default type, i.e. every aliased operator entry and "
@@ -31,7 +31,7 @@ ASSUMPTIONS = [
 
 BASES = ["default", "chainable", "debug", "strict"]
 UTYPES = BASES + ["log_" + b for b in BASES]
-ORIGINS = ["name", "attr", "item_str", "item_int", "hint"]
+ORIGINS = ["name", "attr", "item_str", "item_int", "item_zero", "hint"]
 OPERANDS = ["int0", "float", "str", "list", "none", "markup", "undef_same", "undef_other", "object"]
 BINOPS = ["+", "-", "*", "/", "//", "%", "**"]
 CMPOPS = ["<", "<=", ">", ">="]
@@ -97,6 +97,8 @@ def _make(env, origin):
         return env.compile_expression("d['key_k']", undefined_to_none=False)(d={"x": 1})
     if origin == "item_int":
         return env.compile_expression("l[77]", undefined_to_none=False)(l=[1, 2])
+    if origin == "item_zero":  # a falsy key
+        return env.compile_expression("l0[0]", undefined_to_none=False)(l0=[])
     if origin == "hint":
         return env.undefined(HINT)
     raise core.HarnessError(origin)
@@ -113,8 +115,8 @@ def _names(origin, operand):
     return out
 
 
-NAME_IN_MSG = {"name": "foo_var", "attr": "bar_attr", "item_str": "key_k", "item_int": "77", "hint": HINT}
-TPL_EXPR = {"name": "foo_var", "attr": "o.bar_attr", "item_str": "d['key_k']", "item_int": "l[77]", "hint": "mk()"}
+NAME_IN_MSG = {"name": "foo_var", "attr": "bar_attr", "item_str": "key_k", "item_int": "77", "item_zero": "element 0", "hint": HINT}
+TPL_EXPR = {"name": "foo_var", "attr": "o.bar_attr", "item_str": "d['key_k']", "item_int": "l[77]", "item_zero": "l0[0]", "hint": "mk()"}
 
 
 def _operand(key, env, ut):
@@ -148,7 +150,7 @@ def debug_str(origin):
         return lambda s: s == "{{ foo_var }}"
     if origin == "hint":
         return lambda s: s == "{{ undefined value printed: %s }}" % HINT
-    needle = NAME_IN_MSG[origin]
+    needle = "[0]" if origin == "item_zero" else NAME_IN_MSG[origin]
     return lambda s: s.startswith("{{ no such element: ") and s.endswith(" }}") and needle in s
 
 
@@ -429,7 +431,7 @@ def check_case(case):
                     raise core.Violation("%s: logging undefined did not log a warning (%r)" % (desc, cap.records))
     else:
         src = _tpl_source(origin, op)
-        ctx = {"o": Obj(), "d": {"x": 1}, "l": [1, 2], "mk": lambda: env.undefined(HINT), "w": other}
+        ctx = {"o": Obj(), "d": {"x": 1}, "l": [1, 2], "l0": [], "mk": lambda: env.undefined(HINT), "w": other}
         try:
             got = ("val", env.from_string(src).render(ctx))
         except UE as e:
